@@ -14,8 +14,11 @@ pub fn extra_fns() -> ExtraFns {
 /// A document biased towards what the "fails midway" expressions look at.
 pub fn gen_doc(r: &mut Rng) -> J {
     if r.chance(1, 2) {
-        let n = r.below(7);
-        let odd_at = if r.chance(1, 2) { r.below(7) } else { 99 };
+        // now and then a long array with many equal sort keys: ties are where a sort's
+        // stability (and anything else order-sensitive) becomes observable
+        let long = r.chance(1, 10);
+        let n = if long { 33 + r.below(48) } else { r.below(7) };
+        let odd_at = if r.chance(1, 2) { r.below(n.max(7)) } else { usize::MAX };
         let mut xs = Vec::new();
         for i in 0..n {
             let k = if i == odd_at {
@@ -24,6 +27,8 @@ pub fn gen_doc(r: &mut Rng) -> J {
                     1 => J::Null,
                     _ => J::Arr(vec![J::Int(1)]),
                 }
+            } else if long {
+                J::Int(r.range(0, 2))
             } else {
                 J::Int(r.range(-3, 9))
             };
@@ -34,6 +39,16 @@ pub fn gen_doc(r: &mut Rng) -> J {
             ]));
         }
         let mut m = vec![("xs".to_string(), J::Arr(xs))];
+        if long {
+            // numbers that compare equal but print differently (1 vs 1.0)
+            let ys: Vec<J> = (0..(33 + r.below(30)))
+                .map(|_| {
+                    let v = r.range(0, 3);
+                    if r.chance(1, 2) { J::Int(v) } else { J::Float(v as f64) }
+                })
+                .collect();
+            m.push(("ys".to_string(), J::Arr(ys)));
+        }
         for key in ["a", "b"] {
             if r.chance(3, 4) {
                 let mut b = 6;
